@@ -124,6 +124,7 @@ def crash_points(run):
             ks = sorted(rnd.sample(ks, 30))
         for k in ks:
             jobs.append((hi, k))
+        jobs.append((hi, -1))       # the process dies after its last call, without Close
     stats = {"histories": len(hists), "crash_points": len(jobs), "detected": 0, "consistent_undetected": 0,
              "known": 0, "violations": 0, "by_call": {}}
 
@@ -161,6 +162,17 @@ def crash_points(run):
             cons = [l.split(" => ")[1] for l in b if l.startswith("consistent => ")]
             ctrl = [l.split(" => ")[1] for l in b if l.startswith("control => ")]
             rep = _result(b, "repair")
+            # second part of the recovery: rewrite every object, close, restart
+            i2 = max((i for i, l in enumerate(b) if l.startswith("reopen")), default=0)
+            if i2 > 0:
+                second = b[i2:]
+                f2 = _result(second, "count")
+                c2 = [l.split(" => ")[1] for l in second if l.startswith("consistent => ")]
+                if f2 is None or f2.startswith("E:") or (c2 and c2[0] != "true"):
+                    problems.append(("after-recovery", f"after rewriting every object and a clean restart: first access {f2}, consistent {c2[:1]}"))
+                for l in second:
+                    if l.startswith(("get ", "disk ")) and (l.endswith(("E:syntax", "BADJSON", "BADGZ", "E:other")) ):
+                        problems.append(("unreadable", l[:200]))
             detected = first == "E:corrupted"
             stats["detected"] += detected
             lsline = _result(b, "ls") or ""
@@ -195,7 +207,10 @@ def crash_points(run):
                 if l.endswith("E:syntax") or l.endswith("PANIC") or l.endswith("BADJSON") or l.endswith("BADGZ"):
                     problems.append(("unreadable", l[:200]))
             bad = [(l, v) for l, v in zip(a + b, verdicts) if v != "="]
-            if bad and not problems:
+            # a flush / bulk deletion writes in Go map order: which objects made it before the crash is
+            # unspecified, so the model cannot predict the directory; the oracle alone judges those
+            unordered = call in ("close", "flushall", "flushallc", "delall", "sdel", "create")
+            if bad and not problems and not unordered:
                 problems.append(("model-disagreement", f"{bad[0][0][:200]} | model: {bad[0][1][:200]}"))
         if not problems:
             continue
@@ -208,8 +223,19 @@ def crash_points(run):
                   "trace_until_crash": [l for l in a if not l.startswith("casemap")], "recovery": b,
                   "how_to_replay": "harness-shim -replay <ops> -crashat <k> -keep ; harness-shim -recover"}
         kf = None
-        if set(kinds) <= {"silent-divergence", "stale-after-repair", "model-disagreement"} and sig.get("window") == "object-replaced/schema-not-committed":
-            kf = known("C05", {"window": sig["window"], "call": "update"}, replay)
+        # the recorded finding: index entry and object file of an UPDATE are not replaced atomically.
+        # It is recognised by its effect: every object whose index entry is stale was updated in the
+        # history (or by the interrupted call), and nothing else is wrong.
+        inter = crashline.split(" ", 2)[2] if crashline.count(" ") >= 2 else ""
+        upd = updated_handles(a, inter, sig.get("done") or [])
+        stale = stale_handles(b)
+        sig["stale_objects"], sig["updated_objects"] = sorted(stale), sorted(upd)
+        if stale and stale <= upd and set(kinds) <= {"silent-divergence", "stale-after-repair", "model-disagreement", "after-recovery", "repair-failed"}:
+            kf = known("C05", {"root": "non-atomic-update"}, replay)
+        elif kinds == ["repair-failed"] and rep == "E:unique" and upd:
+            # Repair met the stale value of an updated object while indexing a new file that
+            # legitimately took over that value
+            kf = known("C05", {"root": "non-atomic-update"}, replay)
         if kf:
             stats["known"] += 1
             if kf not in run.known:
@@ -227,19 +253,105 @@ def crash_points(run):
         run.hashes.add(f"crash-{hi}-{k}")
 
 
+def _mentions(call):
+    if call.startswith("ins "):
+        hd = call.split(" ")[1].split(":")[0]
+        nw = call.split("new=")[-1].split(" ")[0] if "new=" in call else "0"
+        return [hd if hd != "0" else nw]
+    if call.startswith(("many ", "bulk ")):
+        toks = [t[2:].split(":")[0] for t in call.split(" ") if t.startswith("o=")]
+        news = (call.split("news=")[-1].split(" ")[0].split(",") if "news=" in call else [])
+        return [t if t != "0" else (news[i] if i < len(news) else "0") for i, t in enumerate(toks)]
+    return []
+
+
+def updated_handles(lines, interrupted="", done=()):
+    """handles of the objects that were UPDATED: their file was written while it already existed,
+    or (asynchronous mode) a write of theirs was accepted while their file existed; `done` are
+    the file operations the interrupted call had completed"""
+    ondisk, upd = set(), set()
+    accepted_n = {}
+    last = None
+    for l in lines:
+        if l.startswith("fsops =>"):
+            toks = l.split("=>", 1)[1].split()
+            if last is not None:
+                call, res = last
+                accepted = res.endswith("ok") or (res.split(" ")[0].isdigit() and res.split(" ")[0] != "0" and call.startswith(("many", "bulk")))
+                if accepted:
+                    for hd in _mentions(call):
+                        if hd in ondisk and ("w:" + hd) not in toks:
+                            upd.add(hd)        # accepted, nothing written yet: a pending update
+                        accepted_n[hd] = accepted_n.get(hd, 0) + 1
+                        if accepted_n[hd] > 1:
+                            upd.add(hd)        # second accepted write of the same object
+            for t in toks:
+                if t.startswith("w:"):
+                    if t[2:] in ondisk:
+                        upd.add(t[2:])
+                    ondisk.add(t[2:])
+                elif t.startswith("r:"):
+                    ondisk.discard(t[2:])
+            last = None
+        elif " => " in l and not l.startswith(("casemap", "#")):
+            last = tuple(l.split(" => ", 1))
+    for t in done:
+        if t.startswith("w:"):
+            if t[2:] in ondisk:
+                upd.add(t[2:])
+            ondisk.add(t[2:])       # the same call may write the object again (chunks)
+    for hd in _mentions(interrupted):
+        if hd in ondisk or accepted_n.get(hd, 0) >= 1:
+            upd.add(hd)
+    upd.discard("0")
+    return upd
+
+
+def stale_handles(lines):
+    out = set()
+    for l in lines:
+        if l.startswith("consistent => false"):
+            rest = l[len("consistent => false"):].strip()
+            out |= set(x for x in rest.split(",") if x)
+    return out
+
+
 def crash_signature(a, crashline, full):
     """which window of which kind of call the crash fell into, from the implementation's own
     file-operation log (objects already on disk before the call are updates)"""
     stored = set()
     done_calls = 0
+    pending_upd, committed_with_pending = set(), False
+    last_call = ""
     for l in a:
         if l.startswith("fsops => ") or l == "fsops =>":
             done_calls += 1
-            for t in l.split("=>", 1)[1].split():
+            toks = l.split("=>", 1)[1].split()
+            # asynchronous mode: an accepted update of an object that is on disk writes nothing yet
+            if last_call.endswith("ok"):
+                hs = []
+                if last_call.startswith("ins "):
+                    hs = [last_call.split(" ")[1].split(":")[0]]
+                elif last_call.startswith(("many ", "bulk ")):
+                    hs = [t[2:].split(":")[0] for t in last_call.split(" ") if t.startswith("o=")]
+                for hd in hs:
+                    if hd in stored and ("w:" + hd) not in toks:
+                        pending_upd.add(hd)
+            for t in toks:
                 if t.startswith("w:"):
                     stored.add(t[2:])
+                    pending_upd.discard(t[2:])
                 elif t.startswith("r:"):
                     stored.discard(t[2:])
+                    pending_upd.discard(t[2:])
+                elif t == "ws" and pending_upd:
+                    committed_with_pending = True
+            if last_call.startswith("del "):
+                pending_upd.discard(last_call.split(" ")[1])
+            if not pending_upd:
+                committed_with_pending = False
+        elif not l.startswith(("casemap", "#")):
+            last_call = l
     fs_full = [l.split("=>", 1)[1].split() for l in full if l.startswith("fsops =>")]
     sig = {"call": crashline.split(" ")[2] if crashline else "?"}
     try:
@@ -259,11 +371,14 @@ def crash_signature(a, crashline, full):
         if replaced:
             sig["window"] = "object-replaced/schema-not-committed"
             sig["objects"] = replaced
+        elif committed_with_pending:
+            sig["window"] = "async: schema committed while an update is pending"
+            sig["objects"] = sorted(pending_upd)
         else:
             sig["window"] = "other"
         sig["done"] = toks
     except Exception as e:          # pragma: no cover
-        sig["window"] = "unknown"
+        sig["window"] = "async: schema committed while an update is pending" if committed_with_pending else "unknown"
     return sig
 
 
@@ -382,6 +497,9 @@ def conc_linearizable(run):
     out = os.path.join(run.scratch, "lin.json")
     r = sh([h, "-conc", "lin", "-seed", str(run.seed), "-n", str(n), "-root", os.path.join(run.scratch, "lin-db"), "-out", out],
            env=dict(os.environ, GORACE="halt_on_error=0 exitcode=66"), timeout=1800)
+    if "STALL" in r.stdout or r.returncode == 5:
+        path = run.write_replay({"kind": "no-progress", "scenario": "lin", "output": r.stdout[-6000:]})
+        run.violations.append(("concurrent calls did not return (deadlock) while recording histories", r.stdout[-300:], path, True))
     if "WARNING: DATA RACE" in r.stdout:
         path = run.write_replay({"kind": "concurrency", "scenario": "lin", "output": r.stdout[:6000]})
         run.violations.append(("data race while recording concurrent histories", r.stdout[-300:], path, True))
@@ -747,8 +865,11 @@ def storage_faults(run):
                   "failing_call": callline, "file_operations_of_the_call": fsline, "signature": sig, "problems": problems,
                   "trace": [l for l in a if not l.startswith("casemap")][-40:], "how_to_replay": "harness-shim -replay <ops> -failat <k>"}
         # the recorded finding: an UPDATE whose object file was replaced when the schema commit failed
-        if kinds == ["silent-divergence-after-restart"] and sig["failed_op"] == "FAIL:ws" and any(t.startswith("w:") for t in sig["done_before"]):
-            kf = known("C06", {"window": "object-replaced/schema-commit-failed"}, replay)
+        upd = updated_handles(a[:idx])
+        stale = stale_handles(tail)
+        sig["stale_objects"], sig["updated_objects"] = sorted(stale), sorted(upd)
+        if kinds == ["silent-divergence-after-restart"] and stale and stale <= upd:
+            kf = known("C06", {"root": "non-atomic-update"}, replay)
             if kf:
                 stats["known"] += 1
                 if kf not in run.known:
